@@ -936,7 +936,16 @@ fn check_node(
     }
     drop(it);
     if !c.s.light {
-        let list: &[Consumer] = if consumers { &CONSUMERS } else { &LIGHT_CONSUMERS };
+        // the first 19 consumers at every node; the second group (and the Ord group) at the fresh iterator and after histories of
+        // length <= 2 (most nodes are deeper: this keeps the cost of the second group proportional to the shallow part of the tree)
+        let shallow = hist.len() <= 2;
+        let list: &[Consumer] = if !consumers {
+            &LIGHT_CONSUMERS
+        } else if shallow {
+            &CONSUMERS
+        } else {
+            &CONSUMERS[..19]
+        };
         for &cons in list {
             let (it, m) = match replay(c, false) {
                 Ok(x) => x,
@@ -963,7 +972,7 @@ fn check_node(
             }
         }
         for cons in ORD_CONSUMERS {
-            if !consumers {
+            if !consumers || hist.len() > 2 {
                 break;
             }
             let (it, m) = match replay(c, false) {
